@@ -726,7 +726,8 @@ impl<C: CrcCalculator> Encapsulator<C> {
                 };
 
                 // define encap status
-                let pkt_len = FIRST_FRAG_LEN + label_len + pdu_len_encapsulated;
+                let pkt_len =
+                    FIRST_FRAG_LEN + label_len + total_len_extensions + pdu_len_encapsulated;
                 EncapStatus::FragmentedPkt(pkt_len as u16, context_frag)
             }
             _ => EncapStatus::CompletedPkt(gse_len + FIXED_HEADER_LEN as u16),
